@@ -81,6 +81,36 @@ def pol_valid(o):
                                   for p in o["pol"])
 
 
+def tweak_schema(rng, s):
+    """change ONE thing of a schema in place: only the burst (raised / lowered), only the rate, both, the slots,
+    the strategy, or the type"""
+    k = rng.below(10)
+    if s["kind"] == 2:
+        if k < 4:
+            s["b"] = max(s["a"], s["b"] + rng.choice([-20, -3, -1, 1, 5, 40]))      # burst only
+        elif k < 6:
+            s["a"] = max(1, min(s["b"], s["a"] + rng.choice([-4, -1, 1, 3])))        # rate only (burst >= rate)
+        elif k < 8:
+            s["a"] = rng.choice([1, 5, 50])
+            s["b"] = s["a"] + rng.choice([0, 1, 10])
+        elif k < 9:
+            s["strat"] = rng.choice([0, 1, 2, 3])
+        else:
+            s["kind"], s["a"], s["b"], s["global"] = 1, rng.choice([0, 1, 5, 100]), 0, 0
+    elif s["kind"] == 1:
+        if k < 6:
+            s["a"] = max(0, s["a"] + rng.choice([-50, -1, 1, 7, 95]))
+        elif k < 8:
+            s["strat"] = rng.choice([0, 1, 2, 3])
+        else:
+            s["kind"], s["a"], s["global"] = 2, rng.choice([1, 5, 50]), 0
+            s["b"] = s["a"] + rng.choice([0, 1, 10])
+    else:
+        s["kind"], s["a"], s["b"], s["global"] = rng.choice([(1, 5, 0, 0), (2, 5, 10, 0)])
+    if s["kind"] == 0 or s["strat"] < 2:
+        s["global"] = 0
+
+
 def gen_obj(rng, name, aliases, prev=None, valid_only=True, history=()):
     """a fresh random object, or a mutation of `prev` (one to three sections change).
 
@@ -127,8 +157,11 @@ def gen_obj(rng, name, aliases, prev=None, valid_only=True, history=()):
         o["ann"] = rng.below(4)
         o["gates"] = [[rng.below(4), rng.below(2)] for _ in range(rng.choice([0, 1, 1, 2, 3]))]
     if how.get("fc") == "random":
-        names = rng.sample(SCHEMAS, rng.choice([0, 1, 1, 2, 3]))
-        o["fc"] = [gen_schema(rng, n) for n in names]
+        if o["fc"] and rng.chance(1, 2):
+            tweak_schema(rng, rng.choice(o["fc"]))       # one limit of one schema changes, the rest stays
+        else:
+            names = rng.sample(SCHEMAS, rng.choice([0, 1, 1, 2, 3]))
+            o["fc"] = [gen_schema(rng, n) for n in names]
     if how.get("sn") == "random":
         o["sn"] = [B(a) for a in rng.sample(aliases, rng.choice([0, 1, 1, 2, 3]))]
         if o["sn"] and rng.chance(1, 8):
